@@ -270,7 +270,8 @@ out:
     free(data.p);
 }
 
-const cmd_t cmds_io[] = {
+static const cmd_t cmds_io[] = {
     { "chain", c_chain },
     { NULL, NULL }
 };
+REGISTER(cmds_io)
